@@ -40,6 +40,14 @@ CLAIMED["C15"] = (
     "positions only (pandas iloc/set_index/sort_index in _get_row_selection outside); the inductive invariant is stated in DESIGN 3.6",
     "DESIGN.md 4 C15")
 
+CLAIMED["C10"] = (
+    "for every group-code sequence within the bound (enumerated) and every value/NaN/mask placement, alpha in (0,1] and time origin "
+    "(symbolic), _ema_grouped/_ema_grouped_timed satisfy out*sum(w) = sum(w*x) with w = (1-alpha)^elapsed-group-rows or 2^-(dt/halflife), "
+    "invalid rows repeat the previous output; single-group grouped == ungrouped; ema/ema_grouped(halflife=h) use alpha = 1-2^(-1/h) for every "
+    "real h>0 (exp as a monotone uninterpreted function); the time unit of datetime64 timestamps is honoured; N<=4,G<=2 (quick), N<=5 / G=3 (thorough)",
+    "exact arithmetic; exp/log and pd.Timedelta by contract stubs; timed gaps are integer multiples (0..2) of the halflife; pandas wrapping outside",
+    "DESIGN.md 4 C10")
+
 NOT_APPLICABLE = {
     "C11": "labelling/order/shape are decided entirely by pandas Index/MultiIndex/DataFrame operations (C extension semantics); nothing symbolic to quantify over within reach of the encoder (DESIGN.md 5)",
     "C14": "margins and crosstab are reindex/groupby(level)/concat/unstack on pandas objects; not encodable (DESIGN.md 5)",
